@@ -2,6 +2,26 @@
 """Regenerates /verif/MANIFEST.json from the table below (one entry per registered check)."""
 import json
 
+ROUND6 = {
+ "C01": "U-bom (0-3 whole byte-order marks plus partial ones at the start, after the first line and at the end of 44 bodies).",
+ "C02": "U-bom; in the preserve_order build the source order of sub-tables and arrays of tables (not only of values) is compared with the model.",
+ "C03": "U-bom.",
+ "C04": "U-bom.",
+ "C05": "a message the library also gives for a shallow malformed document (17 references) never counts as the recursion-limit error.",
+ "C06": "U-char (every scalar value as key and leaf in every container kind through every route); inline tables marked dotted through 7 conversions / placements and as the document root.",
+ "C07": "family type U6 (None reached through serde's map interface and a flattened struct); negative / payload NaNs.",
+ "C08": "op MoveDotted (a dotted group moved between standard tables, implicit ones included); U-placeholder (128 histories through a placeholder left by mutable indexing).",
+ "C11": "byte-buffer targets (deserialize_bytes / deserialize_byte_buf protocol, CString) over arrays holding each lattice integer.",
+ "C12": "edit distance 2 in the quick tier too.",
+ "C13": "U6; Value::try_from / Table::try_from trees compared exactly with the parsed text's tree (NaN sign included).",
+ "C14": "U-bom; a header-defined table's (array-of-tables element's) span must end exactly where its header or its last own value ends.",
+ "C15": "U-bom; U-long-line (errors 100 ... 200 000 characters into one line); U-typed-table (a mismatch AT a header-defined table starts at that table's own header, whatever was declared before it).",
+ "C16": "U-sort(depth): a sort leaves the entry order of non-dotted children (inline tables, arrays of inline tables, sub-tables, arrays of tables) alone.",
+ "C17": "U-string-tree (every string of <= 3 class representatives and every scalar value, alone and before a quotation mark, as value / key / array element through the three printers); in the preserve_order build print-then-parse keeps the map's order within each class of entries.",
+ "C18": "battery kind te.strings.order (InternalString and Key order, compare and hash like the str they hold, in every configuration); the order laws of C02 / C17.",
+ "C20": "U-deep (API-built chains of 5 container kinds to depth 1025 / 4097, each followed by a small document on the same thread); the structure, not only the text, is compared after a non-modifying VisitMut.",
+}
+
 CHECKS = {
  "C01": ("model_checking", "enum", "5/C01",
   "Bounded-exhaustive: every text of the stated finite universes (all token sequences <= N over T24, all strings <= n over one representative per byte class in each lexical context, all number strings <= n, date-time edit neighbourhoods and field sweeps, all statement sequences <= N, all byte strings <= 2-3 bytes, all 256 byte values at every position of 40 seed frames, corpus single-edit mutants, decor skeletons) is parsed by four entry points and the verdict compared with an independent executable reading of TOML 1.0.0.",
@@ -94,6 +114,8 @@ def main():
         if pid not in CHECKS:
             continue
         cat, engine, ref, text, note, tech = CHECKS[pid]
+        if pid in ROUND6:
+            text = text + " Added in seed round 6 (DESIGN 10.4): " + ROUND6[pid]
         checks.append({
             "property_id": pid,
             "quick_cmd": f"./run.sh {pid} quick",
